@@ -221,7 +221,7 @@ def _alarm(signum, frame):
 
 
 def run_case(case: dict, ops: list, drain=None, preload: bool = False, built: dict | None = None, cap: int = 400000,
-             deadline: float = 120.0):
+             deadline: float = 300.0):
     """Execute `ops` ([(op, n)]) on a fresh response for `case`; then, unless a call ended or raised, keep
     calling `drain` (op, n) until one does.  Returns the trace record for spec/Body_Trace.tla."""
     import signal
